@@ -298,4 +298,208 @@ theorem dueLoop_finv {par : Nat → Sess} {P : Nat → Nat → Nat → Prop} (hp
           rw [nothingDue_iff]; intro h r' hh; rw [hn] at hh; cases hh; omega
         rw [dueLoop_not_due _ l hnd]; exact ⟨hi, hf, rfl⟩
 
+/-! ### events -/
+
+/-- the scope of the direct invariant: the whole C06 alphabet — the clock does not run backward; I/O steps; ACKs and
+RSTs at any time; `coap_send` of a Confirmable with a positive timeout inside the no-wrap range (D7), WITH or WITHOUT
+NSTART room -/
+def EvG (l : L) : Ev → Prop
+  | .setNow t => l.now ≤ t
+  | .prepare => True
+  | .submit s con _ r =>
+    con = true ∧
+    0 < calcTimeout (l.getS s).atI (l.getS s).atF (l.getS s).arfI (l.getS s).arfF r ∧
+    calcTimeout (l.getS s).atI (l.getS s).atF (l.getS s).arfI (l.getS s).arfF r * 2 ^ (l.getS s).maxRtx < 2 ^ 64
+  | .rxAck _ _ => True
+  | .rxRst _ _ => True
+  | _ => False
+
+/-- `EvG` threaded along the run of M -/
+def RunG (l : L) : List Ev → Prop
+  | [] => True
+  | ev :: evs => EvG l ev ∧ RunG (Msg.step l ev) evs
+
+instance (l : L) (ev : Ev) : Decidable (EvG l ev) := by
+  cases ev <;> simp only [EvG] <;> infer_instance
+
+instance decRunG : (evs : List Ev) → (l : L) → Decidable (RunG l evs)
+  | [], _ => isTrue trivial
+  | ev :: evs, l => by
+    unfold RunG
+    exact @instDecidableAnd _ _ _ (decRunG evs _)
+
+theorem removed_finv {par : Nat → Sess} {P : Nat → Nat → Nat → Prop} (l : L) (s mid : Nat)
+    (hi : FInv par P l) (hf : Fut l) :
+    FInv par P { l with q := { l.q with nodes := (removeNode l.q.nodes s mid).2 } } ∧
+    Fut { l with q := { l.q with nodes := (removeNode l.q.nodes s mid).2 } } ∧
+    (∀ n, (removeNode l.q.nodes s mid).1 = some n → n.con = true ∧ n.mid = mid) := by
+  have h1 := (absP_removeNode (mxOf par) l.q.base l.q.nodes s mid).1
+  have h3 := all_removeNode (nodeOk_tfree par P) l.q.nodes s mid hi.nodes
+  have hsub : ∀ p ∈ absP (mxOf par) l.q.base (removeNode l.q.nodes s mid).2,
+      p ∈ absP (mxOf par) l.q.base l.q.nodes := by
+    intro p hp; rw [h1] at hp; exact mem_premove hp
+  refine ⟨⟨hi.base, hi.sess, h3.1, fun p hp => hi.pend p (hsub p hp), hi.outs⟩, ?_, ?_⟩
+  · rw [fut_iff (mxOf par)]
+    intro p hp
+    exact (fut_iff (mxOf par) l).1 hf p (hsub p hp)
+  · intro n hn
+    exact ⟨(h3.2 n hn).1, (removeNode_key _ _ _ _ hn).2⟩
+
+theorem afterRx_finv {par : Nat → Sess} {P : Nat → Nat → Nat → Prop} (hp : GPar par) (l : L)
+    (hi : FInv par P l) (hf : Fut l) : FInv par P (afterRx l) := by
+  unfold afterRx
+  rw [prepareCore_fst]
+  exact (dueLoop_finv hp _ l hi hf).1
+
+theorem step_finv {par : Nat → Sess} {P : Nat → Nat → Nat → Prop} (hp : GPar par) (l : L) (ev : Ev)
+    (hi : FInv par P l) (hok : EvG l ev) (hpu : EvPunct l ev)
+    (hP : ∀ s mid r, ev = .submit s true mid r →
+      P s mid (calcTimeout (par s).atI (par s).atF (par s).arfI (par s).arfF r)) :
+    FInv par P (Msg.step l ev) := by
+  cases ev with
+  | setNow t =>
+    exact ⟨Nat.le_trans hi.base hok, hi.sess, hi.nodes, hi.pend, hi.outs⟩
+  | prepare =>
+    have hf : Fut l := hpu
+    have := (dueLoop_finv hp (dueFuel l) l hi hf).1
+    simp only [Msg.step, prepare]
+    rcases hpc : prepareCore l with ⟨l', w⟩
+    have e : l' = dueLoop (dueFuel l) l := by rw [← prepareCore_fst, hpc]
+    subst e
+    exact finv_emit_other _ this (by intros; simp)
+  | submit s con mid r =>
+    have hf : Fut l := hpu
+    obtain ⟨hcon, hT, h64⟩ := hok
+    subst hcon
+    obtain ⟨ca, dq, hg, hle, hdq⟩ := hi.sess s
+    obtain ⟨hest, hopen, hns, h256⟩ := hp s
+    have hPs := hP s mid r rfl
+    have epar : (calcTimeout (par s).atI (par s).atF (par s).arfI (par s).arfF r) =
+        calcTimeout (l.getS s).atI (l.getS s).atF (l.getS s).arfI (l.getS s).arfF r := by rw [hg]
+    rw [epar] at hPs
+    have emx : (l.getS s).maxRtx = (par s).maxRtx := by rw [hg]
+    have hso : (l.getS s).sockOpen = true := by rw [hg]; exact hopen
+    have hT32 := calcTimeout_lt (l.getS s).atI (l.getS s).atF (l.getS s).arfI (l.getS s).arfF r
+    rw [emx] at h64
+    by_cases hroom : ca < (par s).nstart
+    · -- NSTART room: transmitted now
+      have hgt : gate (l.getS s) true = false := by
+        have : ¬ ((l.getS s).conActive ≥ (l.getS s).nstart) := by rw [hg]; simp only []; omega
+        have he : (l.getS s).est = true := by rw [hg]; exact hest
+        simp [gate, he, this]
+      have hM : Msg.step l (.submit s true mid r) =
+          (waitAck ((l.emit (.tx l.now s mid 0 true)).setS s
+              { (l.getS s) with conActive := ((l.getS s).conActive + 1) % 256 })
+            { sess := s, mid := mid, t := 0,
+              timeout := calcTimeout (l.getS s).atI (l.getS s).atF (l.getS s).arfI (l.getS s).arfF r,
+              cnt := 0, tok := mid, con := true }).emit (.sub (some mid)) := by
+        simp only [Msg.step, submit, hso, hgt]
+        simp
+      rw [hM]
+      have eset : ({ (l.getS s) with conActive := ((l.getS s).conActive + 1) % 256 } : Sess) =
+          { par s with conActive := (ca + 1) % 256, delayq := dq } := by rw [hg]
+      rw [eset]
+      have hmod := calcTimeout_mod (l.getS s).atI (l.getS s).atF (l.getS s).arfI (l.getS s).arfF r
+      generalize calcTimeout (l.getS s).atI (l.getS s).atF (l.getS s).arfI (l.getS s).arfF r = T at *
+      have hi2 : FInv par P ((l.emit (.tx l.now s mid 0 true)).setS s
+          { par s with conActive := (ca + 1) % 256, delayq := dq }) := by
+        refine ⟨hi.base, gsess_setS (gsess_congr rfl hi.sess) s _ dq ?_ hdq, hi.nodes,
+          fun p hp' => pendOk_mono _ (hi.pend p hp'), ?_⟩
+        · have : (ca + 1) % 256 ≤ ca + 1 := Nat.mod_le _ _
+          omega
+        · exact outOk_cons_tx _ _ _ _ hi.outs ⟨l.now, T, by simp, (sched_zero _ _).symm, Nat.zero_le _, hPs⟩
+      have hnode : NodeOk par P { sess := s, mid := mid, t := 0, timeout := T, cnt := 0, tok := mid, con := true } :=
+        ⟨rfl, rfl, hT, Nat.zero_le _, h64, hPs⟩
+      have := finv_enq_fresh _ _ hi2 hf hnode rfl (by simp [L.emit, L.setS])
+      simp only [waitAck, hmod]
+      exact finv_emit_other _ this.1 (by intros; simp)
+    · -- no room: the message waits in the delay queue
+      have hgt : gate (l.getS s) true = true := by
+        have : (l.getS s).conActive ≥ (l.getS s).nstart := by rw [hg]; simp only []; omega
+        simp [gate, this]
+      simp only [Msg.step, submit, hso, hgt]
+      simp only [Bool.not_true, Bool.false_eq_true, if_false, if_true]
+      split
+      · exact finv_emit_other _ hi (by intros; simp)
+      · apply finv_emit_other _ _ (by intros; simp)
+        have key : ∀ X : Sess, X = { par s with conActive := ca, delayq := dq ++
+              [{ sess := s, mid := mid, t := 0,
+                 timeout := calcTimeout (l.getS s).atI (l.getS s).atF (l.getS s).arfI (l.getS s).arfF r,
+                 cnt := 0, tok := mid, con := true }] } → FInv par P (l.setS s X) := by
+          intro X hX
+          rw [hX]
+          refine ⟨hi.base, gsess_setS hi.sess s ca _ hle ?_, hi.nodes, hi.pend, hi.outs⟩
+          intro x hx
+          simp only [List.mem_append, List.mem_singleton] at hx
+          rcases hx with hx | rfl
+          · exact hdq x hx
+          · exact ⟨rfl, rfl, hT, hT32, rfl, h64, hPs⟩
+        exact key _ (by rw [hg]; simp [hopen])
+  | rxAck s mid =>
+    have hf : Fut l := hpu
+    obtain ⟨ca, dq, hg, hle, hdq⟩ := hi.sess s
+    have hso : (l.getS s).sockOpen = true := by rw [hg]; exact (hp s).2.1
+    obtain ⟨hi1, hf1, _⟩ := removed_finv l s mid hi hf
+    simp only [Msg.step, hso, if_true]
+    have : FInv par P (rxAck l s mid) ∧ Fut (rxAck l s mid) := by
+      unfold rxAck
+      rcases hrm : removeNode l.q.nodes s mid with ⟨sent, rest⟩
+      rw [hrm] at hi1 hf1
+      cases sent with
+      | none => exact ⟨hi1, hf1⟩
+      | some n =>
+        have := release_finv hp _ s hi1 hf1
+        exact ⟨this.1, this.2.1⟩
+    exact afterRx_finv hp _ this.1 this.2
+  | rxRst s mid =>
+    have hf : Fut l := hpu
+    obtain ⟨ca, dq, hg, hle, hdq⟩ := hi.sess s
+    have hso : (l.getS s).sockOpen = true := by rw [hg]; exact (hp s).2.1
+    obtain ⟨hi1, hf1, hk⟩ := removed_finv l s mid hi hf
+    simp only [Msg.step, hso, if_true]
+    have : FInv par P (rxRst l s mid) ∧ Fut (rxRst l s mid) := by
+      unfold rxRst
+      rcases hrm : removeNode l.q.nodes s mid with ⟨sent, rest⟩
+      rw [hrm] at hi1 hf1 hk
+      cases sent with
+      | none => exact ⟨finv_emit_other _ hi1 (by intros; simp), hf1⟩
+      | some n =>
+        have := release_finv hp _ s hi1 hf1
+        simp only [(hk n rfl).1, if_true]
+        exact ⟨finv_emit_other _ this.1 (by intros; simp), this.2.1⟩
+    exact afterRx_finv hp _ this.1 this.2
+  | rxNon s mid tok => exact absurd hok (by simp [EvG])
+  | rxBad s mid => exact absurd hok (by simp [EvG])
+  | hold s => exact absurd hok (by simp [EvG])
+  | connect s => exact absurd hok (by simp [EvG])
+  | disconnect s => exact absurd hok (by simp [EvG])
+
+theorem run_finv {par : Nat → Sess} {P : Nat → Nat → Nat → Prop} (hp : GPar par) :
+    ∀ (evs : List Ev) (l : L), FInv par P l → RunG l evs → Punctual l evs →
+      (∀ s mid r, Ev.submit s true mid r ∈ evs → P s mid (calcTimeout (par s).atI (par s).atF (par s).arfI (par s).arfF r)) →
+      FInv par P (Msg.run l evs) := by
+  intro evs
+  induction evs with
+  | nil => intro l hi _ _ _; exact hi
+  | cons ev evs ih =>
+    intro l hi hin hpu hP
+    exact ih _ (step_finv hp l ev hi hin.1 hpu.1 (fun s mid r h => hP s mid r (by simp [h]))) hin.2 hpu.2
+      (fun s mid r h => hP s mid r (by simp [h]))
+
+theorem gpar_of (sess : List Sess) (h : ∀ se ∈ sess, SessOk se) : GPar (parOf sess) := fun s =>
+  have := parOf_ok sess h s
+  ⟨this.1, this.2.2.1, this.2.2.2.1, this.2.2.2.2.1⟩
+
+theorem finv_init (P : Nat → Nat → Nat → Prop) (now0 : Nat) (sess : List Sess) (h : ∀ se ∈ sess, SessOk se) :
+    FInv (parOf sess) P (Msg.init now0 sess) := by
+  refine ⟨Nat.zero_le _, ?_, by simp [Msg.init], by simp [Msg.init, absP], by intro t s mid k c hm; simp [Msg.init] at hm⟩
+  intro s
+  have hok := parOf_ok sess h s
+  refine ⟨(parOf sess s).conActive, [], ?_, hok.2.2.2.2.2, by simp⟩
+  show parOf sess s = _
+  have := hok.2.1
+  cases hps : parOf sess s
+  rw [hps] at this
+  simp_all
+
 end Coap.Sched
